@@ -255,3 +255,90 @@ def yield_counts(stmts, _acc=0):
                 nxt.add(st + ny)
         states = nxt
     return states
+
+
+def _resolve_import(repo, mod, local):
+    """(module-level function def, qualified label) for a name imported from another module of the package, else (None, None)"""
+    src = mod.imports.get(local)
+    if not src or src[1] is None or not src[0].startswith("."):
+        return None, None
+    level = len(src[0]) - len(src[0].lstrip("."))
+    parts = mod.rel.split("/")[:-1]
+    if level > 1:
+        parts = parts[: -(level - 1)]
+    tail = src[0].lstrip(".")
+    base = "/".join(parts + (tail.split(".") if tail else []))
+    for rel in (base + ".py", base + "/__init__.py"):
+        if repo is not None and repo.has(rel):
+            m2 = repo.mod(rel)
+            f = m2.functions.get(src[1])
+            if isinstance(f, (ast.FunctionDef, ast.AsyncFunctionDef)):
+                return f, "%s:%s" % (rel, src[1])
+    return None, None
+
+
+def name_slot_mismatches(mod, repo=None):
+    """Argument-swap detector over one module: a call that passes a bare name positionally into a parameter slot of a
+    *different* name while the callee also has a parameter of that very name.  Callees are resolved within the module:
+    plain functions, self.<method> (class and its bases defined in the module), super(...).<method>.
+    Returns [(call, arg_name, slot_name, callee_qualname, caller_qualname)]; the number of (call, positional bare name) pairs examined is left in
+    name_slot_mismatches.last_examined[0]."""
+    out = []
+    examined = [0]
+    name_slot_mismatches.last_examined = examined
+    funcs = mod.functions  # qualname -> def
+    classes = {q: n for q, n in mod.classes.items()} if hasattr(mod, "classes") else {}
+
+    def params_of(fn, drop_self):
+        ps = [a.arg for a in fn.args.posonlyargs + fn.args.args]
+        if drop_self and ps and ps[0] in ("self", "cls", "lhs"):
+            ps = ps[1:]
+        return ps
+
+    def bases_of(cname):
+        c = classes.get(cname)
+        res = []
+        if c is not None:
+            for b in c.bases:
+                bn = b.id if isinstance(b, ast.Name) else None
+                if bn and bn in classes:
+                    res.append(bn)
+                    res += bases_of(bn)
+        return res
+
+    def lookup_method(cname, meth, skip_own=False):
+        order = ([] if skip_own else [cname]) + bases_of(cname)
+        for c in order:
+            q = "%s.%s" % (c, meth)
+            if q in funcs:
+                return q, funcs[q]
+        return None, None
+
+    for qual, fn in funcs.items():
+        owner = qual.split(".")[0] if "." in qual and qual.split(".")[0] in classes else None
+        for c in walk_shallow(fn):
+            if not isinstance(c, ast.Call) or any(isinstance(a, ast.Starred) for a in c.args):
+                continue
+            callee_q, callee, drop = None, None, False
+            f = c.func
+            if isinstance(f, ast.Name) and f.id in funcs and isinstance(funcs[f.id], (ast.FunctionDef, ast.AsyncFunctionDef)):
+                callee_q, callee = f.id, funcs[f.id]
+            elif isinstance(f, ast.Name) and f.id in mod.imports:
+                callee, callee_q = _resolve_import(repo, mod, f.id)
+            elif isinstance(f, ast.Attribute) and isinstance(f.value, ast.Name) and f.value.id in ("self", "cls") and owner:
+                callee_q, callee = lookup_method(owner, f.attr)
+                drop = True
+            elif isinstance(f, ast.Attribute) and isinstance(f.value, ast.Call) and isinstance(f.value.func, ast.Name) and f.value.func.id == "super" and owner:
+                callee_q, callee = lookup_method(owner, f.attr, skip_own=True)
+                drop = True
+            if callee is None:
+                continue
+            if any(isinstance(d, ast.Name) and d.id == "staticmethod" for d in callee.decorator_list):
+                drop = False
+            ps = params_of(callee, drop)
+            for i, a in enumerate(c.args):
+                if isinstance(a, ast.Name) and i < len(ps):
+                    examined[0] += 1
+                    if a.id != ps[i] and a.id in ps:
+                        out.append((c, a.id, ps[i], callee_q, qual))
+    return out
